@@ -34,7 +34,15 @@ def handle (op : String) (args : List String) : Option String :=
   | "wdgen.call", [a, b, n] => do
       let w ← parseWd? a b
       let n' ← parseOptInt? n
-      pure (Py.showR (fun r : Wd × Bool => s!"{showWd r.1} {showBool r.2}") (Gen.wdCall w n'))
+      pure (Py.showR (fun r : Wd × Bool => s!"{showWd r.1} {showBool r.2}") (Gen.wdCall Gen.wdInit w n'))
+  | "wd.callrr", [a, b, n] => do
+      let w ← parseWd? a b
+      let n' ← parseOptInt? n
+      pure (Py.showR (fun r : Wd × Bool => s!"{showWd r.1} {showBool r.2}") (callRR w n'))
+  | "wdgen.callrr", [a, b, n] => do
+      let w ← parseWd? a b
+      let n' ← parseOptInt? n
+      pure (Py.showR (fun r : Wd × Bool => s!"{showWd r.1} {showBool r.2}") (Gen.wdCall Gen.wdInitRR w n'))
   | "wd.eq", a :: b :: rest => do
       let w ← parseWd? a b
       let o ← parseOther? rest
